@@ -527,8 +527,10 @@ def main_conc(pid, tier, replay, seed):
             "trusted_base": P.trusted_base(pid, axioms), "theorems": thm_names,
             "partial_theorems": cfg.get("partial", []),
             "generated_facts_sha1": gen_sha, "generated_lock_events": n_events,
-            "evaluations": served, "distinct_nontrivial": served,
-            "rule": cfg["rule"], "traces_validated_against_impl": served,
+            "evaluations": served, "distinct_nontrivial": n_events,
+            "rule": cfg["rule"] + "; evaluations = requests/iterations of the stress run; distinct_nontrivial = number of distinct lock/access "
+                    "events (program points) in the regenerated entry-point summaries that the discipline theorems were checked against",
+            "traces_validated_against_impl": served,
             "stress": {"scenario": scen, "seconds_per_seed": secs, "seeds": seeds, "race_detector": True},
             "discipline_violations": diag, "exhaustive": False, "notes": notes,
             "samples": [{"note": "stress scenario " + scen + ": every reader response checked for admissibility; see harness/race.go"}],
